@@ -60,6 +60,11 @@ def DROP(o, unwinding=False):
     return dict(k='drop_obj', o=o, then='unwinding') if unwinding else dict(k='drop_obj', o=o)
 
 
+def BARRIER():
+    """phase barrier: every thread of the scenario has the same number of them; passed when all other threads wait at it (or are done) and the pool is idle"""
+    return dict(k='barrier')
+
+
 def SU(o, then='keep', label=None):
     return dict(k='suspend', o=o, then=then, label=label)
 
@@ -302,8 +307,13 @@ def panic_families(pools=(1, 2)):
 
 def max_families():
     out = pool_families()
-    out.append(make('setmax_despawn_p2', 2, 2, 0, [D(1), D(2), SETMAX(1), DESPAWN(), D(1)], [S(2)], extra_pool=1))
-    out.append(make('setmax0_despawn_p1', 2, 1, 0, [D(1), S(1), SETMAX(0), DESPAWN(), D(2), S(2)]))
+    # C17 quantifies over maximum changes *between phases*: the lowering thread passes a barrier first (no other thread is inside the scheduler)
+    out.append(make('setmax_despawn_p2', 2, 2, 0, [D(1), D(2), BARRIER(), SETMAX(1), DESPAWN(), BARRIER(), D(1), S(1)],
+                    [S(2), BARRIER(), BARRIER(), D(2), S(2)], extra_pool=1))
+    out.append(make('setmax0_despawn_p1', 2, 1, 0, [D(1), S(1), BARRIER(), SETMAX(0), DESPAWN(), D(2), S(2)]))
+    # the maximum is lowered while the only pool thread is occupied and another queue waits in the schedule
+    out.append(make('lower_busy_backlog_p1', 3, 1, 1, [D(1, block=1), D(2), BARRIER(), SETMAX(0), DESPAWN(), D(3), S(3)], [BARRIER(), FIRE(1)]))
+    out.append(make('lower_busy_backlog_p2', 3, 2, 1, [D(1, block=1), D(2), D(3), BARRIER(), SETMAX(1), DESPAWN(), D(2), S(2)], [BARRIER(), FIRE(1), S(3)]))
     out.append(make('raise_max_p0', 2, 0, 0, [D(1), SETMAX(2), D(2), D(1)], [S(1), S(2)], extra_pool=2))
     return out
 
